@@ -215,7 +215,7 @@ class Spy:
     calls = []
 
     def after_transition(self, machine):
-        Spy.calls.append(machine)
+        Spy.calls.append((self, machine))
 
 
 def shallow_twin(case, pid="C16"):
@@ -253,7 +253,7 @@ def shallow_twin(case, pid="C16"):
                 fired += 1
                 if len(Spy.calls) == n0:
                     return outcome_fail(pid + ":shallow-twin", f"{style} {ev!r} on a shallow copy ran a transition, but the listener attached to that copy was not called (the event went elsewhere)", case), set()
-            if any(m is not twin for m in Spy.calls):
+            if any(m is not twin for _l, m in Spy.calls):
                 return outcome_fail(pid + ":shallow-twin", "a listener attached to a shallow copy was called by another machine", case), set()
             n0 = len(Spy.calls)
             for ev in tw["on_base"]:
@@ -268,12 +268,55 @@ def shallow_twin(case, pid="C16"):
                 except (TransitionNotAllowed, Boom):
                     pass
             if len(Spy.calls) != n0:
-                who = "the original" if any(m is base for m in Spy.calls[n0:]) else f"a {tw['how']} clone of the original"
+                who = "the original" if any(m is base for _l, m in Spy.calls[n0:]) else f"a {tw['how']} clone of the original"
                 return outcome_fail(pid + ":shallow-twin", f"a listener attached to a shallow copy only was called by {who}", case), set()
     finally:
         Spy.calls = []
         dispose(r)
     return None, {"shallow-twin", "shallow-twin:fired" if fired else "shallow-twin:nothing-fired"}
+
+
+def shared_defaults(case, pid="C16"):
+    """One list object with default listeners is handed to several constructors; a listener added to ONE machine with add_listener
+    belongs to that machine: machines built from the list later do not call that listener."""
+    from ..scenario import dispose
+
+    tw = case.get("twin")
+    if not tw:
+        return None, set()
+    r = render(tw["spec"])
+    try:
+        with warnings.catch_warnings():
+            warnings.simplefilter("ignore")
+            base_l = Spy()
+            defaults = [base_l]
+            Hb = r.new_H()
+            Hb.val.update({cid: True for cid in tw["true_guards"]})
+            Hb.objs = {}
+            m1 = r.cls(Hb, listeners=defaults)
+            extra = Spy()
+            m1.add_listener(extra)
+            H2 = r.new_H()
+            H2.val.update({cid: True for cid in tw["true_guards"]})
+            H2.objs = {}
+            m2 = r.cls(H2, listeners=defaults)
+            Spy.calls = []
+            fired = 0
+            for ev in tw["on_clone"] + tw["on_base"]:
+                try:
+                    m2.send(ev)
+                    fired += 1
+                except (TransitionNotAllowed, Boom):
+                    pass
+            seen = list(Spy.calls)
+            if any(l is extra for l, _ in seen):
+                return outcome_fail(pid + ":shared-defaults", "a listener added to one machine with add_listener() was called by another machine built from the same default-listeners list", case), set()
+            if fired and not any(l is base_l and m is m2 for l, m in seen):
+                return outcome_fail(pid + ":shared-defaults", "the default listener was not called by the second machine built from the list", case), set()
+    finally:
+        Spy.calls = []
+        dispose(r)
+    return None, {"shared-defaults-list"}
 
 
 def outcome_fail(sig, detail, case):
@@ -356,7 +399,8 @@ def cases(draw, tier):
         fs = [draw(gen.machine_spec(max_states=3, max_extra=2, providers=("machine",), async_mode="none", sends=False, attach=("conv", "name"))) for _ in range(2)]
         family = {"specs": fs, "order": draw(st.permutations(["Doc", "Legal", "Memo"]))}
     twin = draw(twin_case()) if draw(st.integers(0, 3)) == 0 else None
-    return {"spec": spec, "cfg": cfg, "history": hist, "family": family, "twin": twin, "noise_specs": [flipped(spec), other], "driver_listener": not is_async, "sib_instance_cbs": draw(st.booleans()), "sib_late_as_ctor": draw(st.booleans()), "shared_target": draw(st.booleans())}
+    return {"spec": spec, "cfg": cfg, "history": hist, "family": family, "twin": twin, "noise_specs": [flipped(spec), other], "driver_listener": not is_async, "sib_instance_cbs": draw(st.booleans()), "sib_late_as_ctor": draw(st.booleans()), "shared_target": draw(st.booleans()),
+            **({"sib_start": draw(st.one_of(st.none(), st.integers(0, 3)))} if draw(st.booleans()) else {})}
 
 
 def strategy(tier):
@@ -371,7 +415,7 @@ def run_case(case):
     out = play_case(case, P, PROPERTY)
     if not out["ok"]:
         return out
-    for fam in (mixin_family, shallow_twin):
+    for fam in (mixin_family, shallow_twin, shared_defaults):
         bad, labels = fam(case)
         if bad is not None:
             return bad
